@@ -575,3 +575,83 @@ more("C17",
 more("C09",
      text="The reference pixel of the common grid is placed on input edges (CRPIX exactly 0, 1, width, width + 1) in every input order; directory creation is one more scheduling point "
           "of the scheduled runs, next to lock / read / write.")
+
+
+# ------------------------------------------------------------------------------------------------
+# additions after the seventh round of independently seeded changes (DESIGN 10)
+# ------------------------------------------------------------------------------------------------
+more("C01",
+     text="A refused start of the k-th worker is an environment action (spec/WalkParStart.tla: StartFails with outcomes raise / carry on; the serial-fallback-beside-live-workers "
+          "design WalkParStartBad is rejected by AtMostOnce), exhaustive for every k, replayed, and injected into the fake Process.start with the left-behind workers observed after "
+          "the walk ends. Filters that decide from tile corners (lifted position filters, _latlon_tile_filter boxes) run in both TOAST coordinate systems x sub-pyramid apexes.",
+     note="Reference geometry for corner-reading filters = create_single_tile (judged by C04).")
+more("C02",
+     text="Pyramids in which the 2x2 reduction itself makes a whole tile undefined (+inf/-inf pairs; faint alpha with three-valued undefinedness) are in scope; the multiprocessing "
+          "start method (spawn / forkserver in a fresh interpreter) x parallel in {None, 2, 4} is a configuration dimension; histories over one directory (spec/CascadeHistory.tla) "
+          "are explored by TLC and a cover replayed.")
+more("C14",
+     text="Histories (spec/CascadeHistory.tla): cascade(D) then cascade(k<D) by API / CLI / Builder; leaf data growing between cascades; one Builder cascading several times, fresh or "
+          "restored from index_rel.wtml; BuilderRule / IndexRule: imageset and WTML range after Builder.cascade equal the range of the leaves now on disk.")
+more("C03",
+     text="spec/WorkQueueProd.tla adds a fault of the producer's iterable at item k (PFail) with the parent's reaction as a parameter (TLC refutes 'wind down and return'); PFail behaviours "
+          "are replayed and injected in all four stages. spec/LeafHistory.tla: histories on one Pyramid object (count / visit, then subpyramid or depth change, then visit); every visit must "
+          "deliver the current leaf set TLC emits.",
+     note="Hangs after a producer fault are drift (outside C03).")
+more("C04",
+     note="Areas: children-vs-parent and 4..1024-descendant generation sums for tiles spec/ToastArea.tla picks within two tiles of the fold lines at every depth to 20 / 22, both "
+          "coordinate systems, tolerance 100 x the measured 1e-16 * 4^n rounding envelope of toast_tile_area (C04:area:deep-nesting, C04:area:deep-generations).")
+more("C05",
+     text="Tiles that arrive: spec/LeafDelivery.tla (filtered generator, sub-pyramid filter, producer / queue / feeder / worker machine over values; T_LeafTiles, ArrivedIsItsTile, "
+          "ArrivedGridIsCentres); the real visit_leaves(parallel=2) is driven through TLC's feeder-lag vectors (items pickled at flush), adversarial policies and real processes, the grid "
+          "computed in the worker compared with TLC's table. One child interpreter per environment variable the library source reads, and one without the compiled extension, recompute "
+          "a stratified subset (a clean ImportError is not judged).")
+more("C06",
+     text="spec/SampleOps.tla models the array object a sampler returns (byte order, layout, writability; T_ReprInvisible / T_ReprSensitive); the real runs hand the same values out as "
+          "big-endian, Fortran-ordered, negatively strided, gapped, read-only, memory-mapped and broadcast arrays. spec/SampleJobs.tla composes sampling with TileLock's critical section for "
+          "two or three separately started updating jobs (JFinalOK, JKept, JMutex, JTermination; the unlocked variant refuted); forked jobs whose samplers rendezvous per shared tile must "
+          "leave every job's pixels in the final tiles.")
+more("C07",
+     note="Footprints also vary in the WCS's celestial frame (FK5 / FK4 / FK4-NO-E with an equinox, Galactic, ecliptic axes) and in SIP distortion (1-4 px); the recorder follows "
+          "wcs_pix2world and all_pix2world; the bounds are checked against the extremes of the recorded samples through the sampler's route (spec/FootprintMap.tla).")
+more("C08",
+     text="Every defined value class at the edge of a type's meaning (infinities, signed zeros, subnormals, largest finite / integer, black / white, alpha 1) is reassembled per mode x "
+          "lossless format (EdgeValueTable from TLC; blanking / flushing stores refuted); offsets, sizes and indexes are also handed over as NumPy integers of every fitting width, incl. "
+          "tilings whose offset sums leave 8 / 16-bit ranges (ReprSlotsOK, ReprSubOK; wrapping variants refuted).")
+more("C10",
+     text="'One tile' is one tile FILE: every updater has its own PyramidIO object, differing in default format (the file's / another with format= named / guessed before or after the "
+          "directory held tiles), scheme and base-directory spelling; TLC refutes a lock key computed from the object's default format (keymode dflt) and a lock owned by an identity "
+          "memoised per memory image (keymode owner; fork history 'a process completes its own updates, then forks the contending updaters').",
+     note="Updaters of one file name the same directory (any spelling), scheme and stored format; fork history is exercised with real processes only.")
+more("C11",
+     text="Maps up to 2^22 columns / rows (TLC 'wide' family: centres of sampled cells +- 1/4 cell) asked with float32 / float16 / big-endian / long-double request arrays; one sampler "
+          "object called by 4 threads at once (same / different / pairwise-shared request shapes), every answer compared with TLC's table for that caller's own points.")
+more("C12",
+     text="Points given by coordinates (whole radians, float32 / float16 values) are located in the lattice and asked in every number type that denotes them (Python / NumPy ints and floats "
+          "of all widths, 0-d arrays, longdouble, Fraction / Decimal if accepted); spec/ToastQuery.tla (unit squares, the number format as a variable of the lookup machine).")
+more("C13",
+     text="Environment dimensions (spec/ReduceEnv.tla): every callback-return policy (None / falsy non-None / truthy / no-truth-value arrays / large objects) through serial and two-worker "
+          "walks and leaf visits; the same enumeration, counts and serial visits replayed in one child interpreter started with -O (asserts stripped).")
+more("C15",
+     text="Fill and Update are explored with the same indexer families - slice / reversed-slice rectangles, rectangles written with an integer list or array on one buffer axis, and pointwise "
+          "integer-array quadruples - for all 8 modes (key C15:buffer:<mode>:update-non-slice).")
+more("C16",
+     text="One WCS object held by several owners (spec/ParityHolders.tla): 2-3 Images / ImageDescriptions and the caller around w, w.copy(), w.deepcopy(), w.sub(), w.celestial, every "
+          "history of flip / ensure on one holder and in-place edits - the flipped holder must be right and every other holder unchanged (key ...:bystander).",
+     note="The caller's own WCS object alone written = drift; alternate-axis-key WCS objects are refused loudly (KeyError) and are outside the enumeration.")
+more("C17",
+     text="spec/WtmlFormats.tla is the library-route machine (Builder over a PyramidIO whose tile format is independent of the input's own; tile_base_as_study / prepare+execute / "
+          "tile_study_image / toast_base with optional format=; base layer, cascade per level, index), every emitted case replayed through the real API and judged; WtmlHistory also starts "
+          "on an existing empty output directory (first call = fresh call).")
+more("C18",
+     text="File sets with sub-folders (files named by relative path, whole store tree compared): as built publish() raises at a sub-folder before index.wtml is sent (RefuseSubdir, "
+          "NestedClosed); a publish() that descends is followed through the graph of a publisher with any traversal, faults at every transfer incl. nested ones. Beyond the stated "
+          "quantifier, labelled as such: spec/PublishOverlap.tla, two overlapping publisher processes (inodes, names, blocks, kills), every schedule with <= 2 preemptions replayed on two "
+          "forked processes running the real publish().",
+     note="'Re-running completes the job' is judged for flat image directories only; overlap findings use keys C18:publish:overlapping-runs:*.")
+more("C19",
+     note="Also: input image k unreadable in the parent (every k, serial / scheduler / real processes, parallel 2 and 3) must raise; fault matrix repeated with cli_progress=True; every "
+          "simulated run has a wall-clock backstop (drift, no verdict) and in-process thread queues are scheduled.")
+more("C20",
+     note="Also: histories of two load calls in one process over the same paths (other key / other HDU / file rewritten in place in between), judged per call by TLC (spec/CollectionCalls.tla); "
+          "parallel tiling routes (tile_fits, FitsTiler, view, tile-multi-tan with parallel=2) on collections whose per-file entries differ, equal-shape encoding, tiles read back against "
+          "TLC's selection.")
